@@ -64,7 +64,7 @@ def check_trace(trace, n, batch_size, max_iter, categorical, A_full, same):
     return out
 
 
-def job(family, shape, gemini, batch_size, max_iter, perms, mlcl=False, precomputed=False, refit_from=None):
+def job(family, shape, gemini, batch_size, max_iter, perms, mlcl=False, precomputed=False, refit_from=None, real_gemini=False):
     """precomputed: the affinity is a user matrix handed over as y (kernel='precomputed'); it is NOT assumed symmetric, so that rows and
     columns of every block must both follow the order of the batch"""
     loader.install()
@@ -78,7 +78,9 @@ def job(family, shape, gemini, batch_size, max_iter, perms, mlcl=False, precompu
 
         def setup():
             core.CTX.merge_sign = True
-            env = cm.FitEnv(family, shape, gemini=gemini, batch_size=batch_size, max_iter=max_iter, mlcl=mlcl, stop_after_training=False, gemini_stub=True, final_infer="concrete")
+            # real_gemini: the objective itself runs symbolically (on a single-sample batch most GEMINI gradients are identically zero: the
+            # optimiser step must be made all the same)
+            env = cm.FitEnv(family, shape, gemini=gemini, batch_size=batch_size, max_iter=max_iter, mlcl=mlcl, stop_after_training=False, gemini_stub=not real_gemini, final_infer="concrete")
             seq = list(perm_seq)
             counter = {"i": 0}
 
@@ -121,7 +123,7 @@ def job(family, shape, gemini, batch_size, max_iter, perms, mlcl=False, precompu
             return env
 
         ex = Explorer(max_paths=400)
-        tagbase = f"{family}/{cm.shape_str(shape)}/{gemini}/bs{batch_size}/it{max_iter}{'/mlcl' if mlcl else ''}{'/precomputed' if precomputed else ''}{'/refit-from-n%d' % refit_from if refit_from else ''}/perm{'-'.join(''.join(map(str, p)) for p in perm_seq)}"
+        tagbase = f"{family}/{cm.shape_str(shape)}/{gemini}/bs{batch_size}/it{max_iter}{'/mlcl' if mlcl else ''}{'/precomputed' if precomputed else ''}{'/refit-from-n%d' % refit_from if refit_from else ''}{'/real-gemini' if real_gemini else ''}/perm{'-'.join(''.join(map(str, p)) for p in perm_seq)}"
         first = True
         for out, pc, trace in ex.run(body, setup):
             res["paths"] += 1
@@ -451,6 +453,9 @@ def jobs(tier):
         n_ = cm.dims(fam_, sh_)["n"]
         out.append({"name": f"{fam_}/{cm.shape_str(sh_)}/mmd_ova/bs{bs}/it1{'/mlcl' if ml else ''}/refit-from-n2", "target": "checks.c10:job",
                     "kwargs": dict(family=fam_, shape=sh_, gemini="mmd_ova", batch_size=bs, max_iter=1, perms=perms_for(n_, 1), mlcl=ml, refit_from=2), "timeout": 280 if q else 1800})
+    for n_, bs in [(2, 1), (3, 2)]:
+        out.append({"name": f"LinearModel/{n_}x1x2/mi/bs{bs}/it1/real-gemini", "target": "checks.c10:job",
+                    "kwargs": dict(family="LinearModel", shape=(n_, 1, 2), gemini="mi", batch_size=bs, max_iter=1, perms=perms_for(n_, 1)[:2], real_gemini=True), "timeout": 280 if q else 1800})
     for bs, ml in [(2, False), (None, False), (2, True), (4, False)]:
         out.append({"name": f"LinearModel/3x1x2/mmd_ova/bs{bs}/it1{'/mlcl' if ml else ''}/precomputed", "target": "checks.c10:job",
                     "kwargs": dict(family="LinearModel", shape=(3, 1, 2), gemini="mmd_ova", batch_size=bs, max_iter=1, perms=perms_for(3, 1), mlcl=ml, precomputed=True), "timeout": 280 if q else 1800})
